@@ -293,6 +293,62 @@ def explain(rep, tier, seed):
     rep.bounded.append(dict(kind='explanation path vs fast path: run-time contract on the real API over hints x objects x forced draws x configurations (bounded stand-in, NOT counted as proved)',
                             hint_conf_pairs=len(T), cases=cases, failing_groups=len(groups), objects=len(object_palette()), draws=[0, 1, 2, 7]))
 
+TH_SRC = """
+import sys
+from typing import Annotated, TypeVar
+from beartype.vale import Is
+from beartype.door import TypeHint, is_bearable, die_if_unbearable
+from beartype.roar import BeartypeDoorHintViolation
+def below(limit): return Annotated[int, Is[lambda n: n < limit]]           # distinct hints, identical repr()
+def cls_named(base):
+    class Same(base): pass
+    return Same
+PAIRS = [(below(5), below(10), 7), (TypeVar('TX', bound=int), TypeVar('TX', bound=str), 'a'), (cls_named(int), cls_named(str), cls_named(str)('x')), (list[below(5)], list[below(10)], [7])]
+bad = []
+for first, second, obj in PAIRS:
+    TypeHint(first)                                       # an earlier wrapper of a look-alike hint
+    for h in (first, second):
+        th = TypeHint(h)
+        if th.hint is not h and th.hint != h: bad.append((repr(h)[:50], 'TypeHint(h).hint is another hint'))
+        a, b = is_bearable(obj, h), th.is_bearable(obj)
+        if a != b: bad.append((repr(h)[:50], f'is_bearable -> {a} but TypeHint.is_bearable -> {b}'))
+        def raised(f):
+            try: f(); return False
+            except BeartypeDoorHintViolation: return True
+        c, d = raised(lambda: die_if_unbearable(obj, h)), raised(lambda: th.die_if_unbearable(obj))
+        if c != d or c == a: bad.append((repr(h)[:50], f'die_if_unbearable raised={c}, TypeHint.die_if_unbearable raised={d}, is_bearable={a}'))
+print(bad); sys.exit(1 if bad else 0)
+"""
+def typehint_entrypoints(rep):
+    """the remaining two entry points of the property: TypeHint(h).is_bearable / die_if_unbearable.  (F, structural on the real ASTs) both
+    delegate to the module-level functions with hint=self._hint and the caller's obj / conf, and the metaclass memoises TypeHint(h) under the
+    hint itself; (b) look-alike hints (same repr, same name) wrapped one after the other reach the verdict of the plain functions."""
+    from pyvc import funcmode
+    for meth, callee in (('is_bearable', 'is_bearable'), ('die_if_unbearable', 'die_if_unbearable')):
+        fobj, node, _ = funcmode.load('beartype/door/_cls/doorsuper.py', f'TypeHint.{meth}')
+        calls = [c for c in ast.walk(node) if isinstance(c, ast.Call) and isinstance(c.func, ast.Name) and c.func.id == callee]
+        ok = len(calls) == 1
+        if ok:
+            kw = {k.arg: k.value for k in calls[0].keywords}
+            ok = (isinstance(kw.get('hint'), ast.Attribute) and kw['hint'].attr == '_hint' and isinstance(kw['hint'].value, ast.Name) and kw['hint'].value.id == 'self'
+                  and isinstance(kw.get('obj'), ast.Name) and kw['obj'].id == 'obj' and isinstance(kw.get('conf'), ast.Name) and kw['conf'].id == 'conf')
+            rets = [r for r in ast.walk(node) if isinstance(r, ast.Return)]
+            if meth == 'is_bearable': ok = ok and len(rets) == 1 and rets[0].value is calls[0]
+        rep.add(f'C03.TypeHint.{meth}.delegates_with_own_hint', 'proved' if ok else 'refuted', backend='structural', where=f'TypeHint.{meth}(obj, conf) is {callee}(obj=obj, hint=self._hint, conf=conf) and nothing else')
+    fobj, node, _ = funcmode.load('beartype/door/_cls/doormeta.py', '_TypeHintMetaclass.__call__')
+    calls = [c for c in ast.walk(node) if isinstance(c, ast.Call) and isinstance(c.func, ast.Attribute) and c.func.attr == 'cache_or_get_cached_func_return_passed_arg']
+    ok = len(calls) == 1 and any(k.arg == 'key' and isinstance(k.value, ast.Name) and k.value.id == 'hint' for k in calls[0].keywords) and any(k.arg == 'arg' and isinstance(k.value, ast.Name) and k.value.id == 'hint' for k in calls[0].keywords)
+    rep.add('C03.TypeHint.wrapper_memoised_under_the_hint_itself', 'proved' if ok else 'refuted', backend='structural', where='TypeHint(h) is memoised under key=h and built from h (with the table contract of C14: the wrapper of h wraps a hint equal to h)')
+    import subprocess, sys
+    from pyvc import REPO
+    env = dict(os.environ); env['PYTHONPATH'] = REPO
+    p = subprocess.run([sys.executable, '-c', TH_SRC], capture_output=True, text=True, timeout=120, env=env, cwd='/')
+    if p.returncode not in (0, 1) or (p.returncode == 1 and not p.stdout.strip().startswith('[')): rep.error('C03 typehint_entrypoints harness: ' + (p.stdout + p.stderr)[-600:]); return
+    if p.returncode == 1:
+        rep.add('C03.TypeHint.bounded.same_verdict_as_functions', 'refuted', backend='runtime-contract', where=p.stdout.strip()[-400:], solver_output='bounded run-time contract in a fresh interpreter (not a proof)',
+                replay=dict(reproduced=True, detail=p.stdout.strip()[-400:]), replay_script=f"import subprocess\nenv = dict(os.environ); env['PYTHONPATH'] = {REPO!r}\np = subprocess.run([sys.executable, '-c', {TH_SRC!r}], env=env, cwd='/')\nsys.exit(p.returncode)\n")
+    rep.bounded.append(dict(kind='TypeHint.is_bearable / die_if_unbearable vs the plain functions on look-alike hints (bounded stand-in, NOT counted as proved)', pairs=4, failing=int(p.returncode == 1)))
+
 def classify_explain(msg):
     import re
     if 'has no len()' in msg: return 'finder_len_before_collection_test'
@@ -330,6 +386,8 @@ def main(tier, seed):
             if len(rep.samples) < 4: rep.samples.append(dict(shape=rec['shape'], conf=rec['conf'], obligations=[f"{o['name']}:{o['status']}" for o in rec['obligations'][-6:]]))
         rep.bounded.append(dict(kind='per-shape entry-point agreement proofs (each for all objects and draws)', shapes=n))
     except Exception: rep.error('C03 agree: ' + traceback.format_exc()[-2000:])
+    try: typehint_entrypoints(rep)
+    except Exception: rep.error('C03 typehint_entrypoints: ' + traceback.format_exc()[-1500:])
     try: explain(rep, tier, seed)
     except Exception: rep.error('C03 explain: ' + traceback.format_exc()[-2000:])
     extra_functions = []
